@@ -44,8 +44,8 @@ CLAIMED = {
  'C17': dict(
    technique='Lean 4 theorems (round trips on lists/index maps, Equiv.Perm sign of the pivot permutation) + exhaustive pivot enumeration in the correspondence',
    text=('Theorems for all sizes: shift round trips (and shift 0 = id), vecsym(symvec A)=A for all three storage conventions and symvec(vecsym v)=v for all N, base/dirs <-> polynomial round trip for all shapes/D/P, '
-         'sign and determinant of the pivot permutation = (-1)^#{i: piv i != i} for all N and all pivot vectors. The bridge from the list-level pivot model to the permutation, as_utpm and combine_blocks are '
-         'tied by correspondence/oracle only (partial); all pivot vectors for N<=4 (quick) / N<=5 (thorough) are enumerated against scipy.linalg.lu_factor.')),
+         'sign and determinant of the pivot permutation = (-1)^#{i: piv i != i} for all N and all pivot vectors; the list-level loop of utils.piv2mat computes exactly that permutation and eye[:,swap] is its transposed permutation matrix. as_utpm, combine_blocks, ndarray2utpm are '
+         'tied by the oracle only (partial); all pivot vectors for N<=4 (quick) / N<=5 (thorough) are enumerated against scipy.linalg.lu_factor.')),
  'C16': dict(
    technique='Lean 4 theorems (iteratedDeriv n f x = closed form, by the chain "order n+1 is the derivative of order n") + correspondence + contour-integral oracle',
    text=('Theorems for every order n and every point of the domain: iteratedDeriv n f x equals the closed form of the model for exp, exp2, expm1, log, log2/log10, log1p, sqrt, square, negative, reciprocal, '
@@ -78,9 +78,9 @@ CLAIMED = {
          'elements (cells) of the parent, and UTPM.sum(axis) addresses the coefficient axis NumPy addresses on a slice. The indexing model itself is validated against real NumPy (random + exhaustive small expressions). '
          'reshape/transpose/tile/diag/tri*/trace/conj/real/imag/fft/zeros/ones/symvec/vecsym and item assignment (UTPM, ndarray, scalar right-hand sides, write-through, shares_memory) are checked slice-wise against NumPy (partial: no theorem).')),
  'C09': dict(
-   technique='Lean 4 theorems (extraction algebra of the Hessian / Hessian-vector drivers for every N; seed tables by kernel evaluation for N<=8) + exact analytic oracle on polynomial programs',
+   technique='Lean 4 theorems (extraction algebra and seed tables of the Hessian / Hessian-vector drivers for every N) + exact analytic oracle on polynomial programs',
    text=('Theorems for every N and every symmetric H: 2 c2(e_n) = H_nn, c2(e_n+e_m) - c2(e_n) - c2(e_m) = H_nm, -c2(e_n) + c2(v+e_n) - c2(v) = (Hv)_n (the formulas of extract_hessian / extract_hess_vec); the triangular '
-         'seed layout of init_hessian and the 2N+1 directions of init_hess_vec are kernel-checked for N<=8 (general N not proved: partial); tensors rest on C15. Seed tables and extraction formulas of the real code are compared '
+         'seed layout of init_hessian (N(N+1)/2 directions, e_n at n(n+1)/2, e_n+e_m at (n+1)(n+2)/2-m-1) and the 2N+1 directions of init_hess_vec are proved for every N (and every v); tensors rest on C15; that c2 of a program is v^T Hess f v / 2 is not formalised (partial). Seed tables and extraction formulas of the real code are compared '
          'with the model for every N up to 6/9; polynomial programs are compared with exact analytic derivatives (Jacobian, Jv, Hessian, Hv, all d-th order partials, d<=4) and smooth programs with Taylor propagation along arbitrary directions.')),
  'C07': dict(
    technique='Lean 4 theorems over any non-commutative ring (matrix Taylor kernels solve A*inv(A)=I and A*X=B order by order) + exact correspondence + residual / independent-formula oracles',
